@@ -333,14 +333,20 @@ func (s *state) evalPrint(node *ast.PrintNode) {
 	var escapeHtml = s.autoescape != ast.AutoescapeOff
 	var result = s.val
 
+	// the obligatory directives are added to a copy: the print node belongs to
+	// the compiled template, which is shared by every render.
+	var directives = node.Directives
+	if len(ObligatoryPrintDirectiveNames) > 0 {
+		directives = append([]*ast.PrintDirectiveNode(nil), node.Directives...)
+	}
 	for _, directiveName := range ObligatoryPrintDirectiveNames {
-		node.Directives = append(node.Directives, &ast.PrintDirectiveNode{
+		directives = append(directives, &ast.PrintDirectiveNode{
 			Pos:  node.Position(),
 			Name: directiveName,
 		})
 	}
 
-	for _, directiveNode := range node.Directives {
+	for _, directiveNode := range directives {
 		var directive, ok = PrintDirectives[directiveNode.Name]
 		if !ok {
 			s.errorf("Print directive %q does not exist", directiveNode.Name)
